@@ -175,17 +175,18 @@ Register(u) ==
   /\ LET d == Dir(u) IN
      IF dmn THEN
        IF d \notin Armed THEN           \* events & ~_dispatch_muxnote_armed_events(dmn)
-         IF kreg THEN
-           LET mask == Armed \cup {d}                 \* events |= armed events
-               ev == dEvents \cup mask                \* dmn_events |= events
-               dis == dDis \ mask                     \* dmn_disarmed_events &= ~events
-           IN /\ KMod(mask) /\ CtlChk(mask, ev, dis)
-              /\ dEvents' = ev /\ dDis' = dis
-              /\ LinkInto(u, mask) /\ UNCHANGED <<dmn, hupDel>>
-              /\ enabler' = [enabler EXCEPT ![d] = u]
-              /\ ust' = [ust EXCEPT ![u] = "reg"] /\ uarm' = [uarm EXCEPT ![u] = TRUE]
-         ELSE   \* the MOD fails (entry deleted by a hang-up): registration fails, the source is finalized
-           /\ ust' = [ust EXCEPT ![u] = "gone"] /\ UNCHANGED <<uarm, dvars, viol, enabler>> /\ KNone
+         LET mask == Armed \cup {d}                 \* events |= armed events
+             ev == dEvents \cup mask                \* dmn_events |= events
+             dis == dDis \ mask                     \* dmn_disarmed_events &= ~events
+         IN /\ KMod(mask)
+            /\ IF kreg THEN
+                 /\ CtlChk(mask, ev, dis)
+                 /\ dEvents' = ev /\ dDis' = dis
+                 /\ LinkInto(u, mask) /\ UNCHANGED <<dmn, hupDel>>
+                 /\ enabler' = [enabler EXCEPT ![d] = u]
+                 /\ ust' = [ust EXCEPT ![u] = "reg"] /\ uarm' = [uarm EXCEPT ![u] = TRUE]
+               ELSE   \* the MOD fails (entry deleted by a hang-up): registration fails, the source is finalized
+                 /\ ust' = [ust EXCEPT ![u] = "gone"] /\ UNCHANGED <<uarm, dvars, viol, enabler>>
        ELSE     \* the direction is already armed: no system call
          /\ LinkInto(u, {d}) /\ UNCHANGED <<dmn, dEvents, dDis, hupDel, viol, enabler>> /\ KNone
          /\ ust' = [ust EXCEPT ![u] = "reg"] /\ uarm' = [uarm EXCEPT ![u] = TRUE]
@@ -394,7 +395,8 @@ EnabledOnlyIfConsumed ==
 NoDoubleDelivery == "double" \notin viol
 NoSiblingDoubleDelivery == "double_sibling" \notin viol
 \* a unote is linked in the list of its own direction and only ever handed events of that direction
-ListsMatchDirection == (\A u \in rl : Dir(u) = "in") /\ (\A u \in wl : Dir(u) = "out") /\ "wrongdir" \notin viol
+NoWrongDirDelivery == "wrongdir" \notin viol
+ListsMatchDirection == (\A u \in rl : Dir(u) = "in") /\ (\A u \in wl : Dir(u) = "out") /\ NoWrongDirDelivery
 \* (4) the registration exists exactly while a unote is linked (the hang-up path deletes it early, once)
 RegistrationExact ==
   /\ dmn <=> (members # {})
